@@ -9,6 +9,8 @@ The expected caller outcome follows from which of {d, T, c} comes first (strictl
   T first -> TimeoutError raised at exactly T, the function has been asked to cancel at T
   c first -> CancelledError at c, the function has been asked to cancel at c
 Equal instants are ties: only termination and "nothing left running" are judged there.
+A second family runs 2-3 overlapping calls (different start offsets and durations) through ONE wrapped function: each call
+has its own deadline start+T and its own outcome.
 
 Monitors: terminates (no quiescence/hang while the caller waits), outcome, outcome-time,
 function-cancelled, nothing-left-running, cancel-honoured (a caller.cancel() that returned True - also one issued a
@@ -39,7 +41,7 @@ ASSUMPTIONS = [
     "what reaches the loop exception handler is diagnostic only",
     "timeouts > 0",
 ]
-MINIMUMS = {"monitor:cancel-honoured": 1000, "cancel_requests_too_late": 100, "monitor:terminates": 2000, "monitor:outcome": 1500, "timeouts_fired": 300, "caller_cancels_delivered": 200, "function_ended_cancelled": 50}
+MINIMUMS = {"monitor:cancel-honoured": 1000, "cancel_requests_too_late": 100, "monitor:terminates": 2000, "monitor:outcome": 1500, "timeouts_fired": 300, "caller_cancels_delivered": 200, "function_ended_cancelled": 50, "overlapping_calls_through_one_wrapper": 500}
 JOBS = {"quick": 4, "thorough": 8}
 LEVEL_TEXT = (
     "Every cell of the table durations {0,1,1.25,2} x outcomes {value, falsy value, Exception, falsy Exception, BaseException, self-cancel, ignores-first-cancel, cancelled-cleanup-raises} x "
@@ -229,7 +231,85 @@ def run_case(R: Recorder, case: dict[str, Any], verbose: bool = False) -> None:
         R.sample({**case, "caller": repr(res), "caller_at": at, "function": fn}, kind=first)
 
 
+def run_overlap(R: Recorder, case: dict[str, Any], verbose: bool = False) -> None:
+    """several overlapping calls through ONE timeout-wrapped function: every call has its own deadline"""
+    from haiway import timeout
+
+    T, calls = case["T"], case["calls"]  # calls: [(start offset, duration), ...]
+    clock = VClock()
+    t0 = clock.now
+    fn: dict[int, dict[str, Any]] = {}
+    got: dict[int, Any] = {}
+
+    async def function(i: int) -> Any:
+        fn[i] = {"cancel_seen_at": None, "finished_at": None, "value": ("value", i, object())}
+        try:
+            try:
+                await asyncio.sleep(calls[i][1])
+            except asyncio.CancelledError:
+                fn[i]["cancel_seen_at"] = clock.now - t0
+                raise
+            return fn[i]["value"]
+        finally:
+            fn[i]["finished_at"] = clock.now - t0
+
+    async def main(loop: Any) -> None:
+        wrapped = timeout(T)(function)
+
+        async def caller(i: int) -> None:
+            await asyncio.sleep(calls[i][0])
+            try:
+                got[i] = ("value", await wrapped(i), clock.now - t0)
+            except BaseException as exc:  # noqa: BLE001
+                got[i] = ("raise", exc, clock.now - t0)
+
+        await asyncio.gather(*[loop.create_task(caller(i)) for i in range(len(calls))])
+        await asyncio.sleep(10)
+        got["settled"] = True
+
+    with patched_time(clock):
+        status, value, loop = run_virtual(main, clock=clock, max_iterations=20000)
+    overlapping = any(a[0] < b[0] + min(b[1], T) and b[0] < a[0] + min(a[1], T) for a, b in itertools.combinations(calls, 2))
+    R.case(case, nontrivial=overlapping)
+    if overlapping:
+        R.count("overlapping_calls_through_one_wrapper")
+    where = {"family": "overlap", "scoped": False, "nested": False}
+    if verbose:
+        print(f"status={status} value={value!r} got={got} fn={fn}")
+    terminated = status == "ok" and got.get("settled")
+    R.monitor("terminates", bool(terminated), where={**where, "kind": status if status != "ok" else "caller-not-done"}, detail=f"run ended {status} ({value!r}); callers={got}; functions={fn}", case=case)
+    if not terminated:
+        return
+    for i, (start, d) in enumerate(calls):
+        res = got.get(i)
+        if d == T:
+            R.monitor("outcome", None)
+            continue
+        if d < T:
+            ok = res is not None and res[0] == "value" and res[1] is fn[i]["value"]
+            ok_t, exp_at, exp = res is not None and res[2] == start + d, start + d, "its value"
+        else:
+            ok = res is not None and res[0] == "raise" and type(res[1]) is TimeoutError
+            ok_t, exp_at, exp = res is not None and res[2] == start + T, start + T, "TimeoutError"
+            R.count("timeouts_fired")
+            R.monitor("function-cancelled", fn[i]["cancel_seen_at"] == exp_at, where={**where, "kind": "function-not-cancelled"}, detail=f"call {i} (start +{start}, duration {d}, timeout {T}) saw cancellation at {fn[i]['cancel_seen_at']}, expected +{exp_at}; all={fn}", case=case)
+        R.monitor("outcome", ok, where={**where, "kind": "wrong-outcome", "expected": exp}, detail=f"call {i} (start +{start}, duration {d}, timeout {T}) ended {res!r}; expected {exp} at +{exp_at}; callers={got}", case=case)
+        R.monitor("outcome-time", ok_t, where={**where, "kind": "wrong-time"}, detail=f"call {i} (start +{start}, duration {d}, timeout {T}) ended at +{res and res[2]}, expected +{exp_at}", case=case)
+        R.monitor("nothing-left-running", fn[i]["finished_at"] is not None, where={**where, "kind": "function-still-running"}, detail=f"call {i}: {fn[i]}", case=case)
+
+
+def overlap_cases(tier: str):  # noqa: ANN201
+    starts = (0.0, 0.25, 0.5, 1.0)
+    durs = (0.25, 0.5, 1.5, 3.0) if tier == "quick" else (0.25, 0.5, 0.75, 1.5, 2.25, 3.0)
+    for T in (1.0, 2.0):
+        for n in (2, 3):
+            for ss in itertools.product(starts, repeat=n - 1):
+                for ds in itertools.product(durs, repeat=n):
+                    yield {"overlap": True, "T": T, "calls": [[s, d] for s, d in zip((0.0, *ss), ds)]}
+
+
 def cases(tier: str):  # noqa: ANN201
+    yield from overlap_cases(tier)
     durations, timeouts, cancels = DURATIONS, TIMEOUTS, CANCELS
     if tier == "thorough":  # finer dyadic grid
         durations = (0.0, 0.25, 0.5, 1.0, 1.25, 1.75, 2.0, 2.75)
@@ -254,8 +334,8 @@ def run(R: Recorder, tier: str, seed: int, shard: int, nshards: int) -> None:
     R.flags["exhaustive_core"] = "full table durations x outcomes x timeouts x cancel instants x scoped (+ nested timeouts)"
     for i, case in enumerate(cases(tier)):
         if i % nshards == shard:
-            run_case(R, case)
+            (run_overlap if case.get("overlap") else run_case)(R, case)
 
 
 def replay(R: Recorder, case: dict[str, Any]) -> None:
-    run_case(R, case, verbose=True)
+    (run_overlap if case.get("overlap") else run_case)(R, case, verbose=True)
